@@ -55,7 +55,7 @@ class StepOracle:
     def xbeta_classes(self, model, snap, p, nclasses):
         """Precipitate composition per class (mean of the two class boundaries), shape (classes, elements)."""
         spec = self.sc["phases"][p]
-        if self.sc["system"] in ("toy_bin", "toy_multi", "alzr"):      # stoichiometric precipitates: the backend constant
+        if self.sc["system"] in ("toy_bin", "toy_multi", "alzr") and not spec.get("kbeta"):      # stoichiometric precipitates: the backend constant
             xb = np.atleast_1d(np.array(spec["xb"], dtype=float))
             return np.repeat(xb[np.newaxis, :], nclasses, axis=0), "backend_constant"
         xb = snap["xbeta"][p]
